@@ -25,6 +25,11 @@ func xnetOracle(c *core.Ctx, sc *scratch, docs [][]byte, mine [][][]byte) {
 		}
 		extra = append(extra, []byte(sb.String()))
 	}
+	// fixed witnesses around the deviation classes, so that each run exercises the class predicates: the first
+	// three are in a class (skipped and counted), the others are next to one and must compare equal
+	for _, w := range []string{"<a x=y/>", "<xmp id=a/>t</xmp>", "<br class=/>", "</>", "<a x=\"y/\"/>", "<a x=y/ >", "<a x='/'>", "<a x=y/ />", "<a x/>", "<a x=\"/\">"} {
+		extra = append(extra, []byte(w))
+	}
 	reqs := make([]drv.Req, len(extra))
 	for i, d := range extra {
 		reqs[i] = drv.Req{Fn: "tok", Args: [][]byte{d}}
@@ -38,6 +43,7 @@ func xnetOracle(c *core.Ctx, sc *scratch, docs [][]byte, mine [][][]byte) {
 		return
 	}
 	var examples []string
+	skipped := map[string]int{}
 	diff, diffProbe := 0, 0
 	first := ""
 	for i, l := range lines {
@@ -46,12 +52,16 @@ func xnetOracle(c *core.Ctx, sc *scratch, docs [][]byte, mine [][][]byte) {
 			diff++
 			continue
 		}
-		a := canonMine(got)
+		a := canonMine(got, nil)
 		b := canonXnet(l)
 		if a != b {
-			if known := xnetKnownDeviation(all[i]); known && i >= len(docs) {
-				c.Hist("x/net/html oracle: input in a documented deviation class, skipped")
-				continue
+			if i >= len(docs) {
+				// random markup only: the rendered probe outputs are always compared in full
+				if class := xnetKnownDeviation(all[i], got, l, b); class != "" {
+					skipped[class]++
+					c.Hist("x/net/html oracle: input in a documented deviation class, skipped: " + class)
+					continue
+				}
 			}
 			diff++
 			if i < len(docs) {
@@ -65,7 +75,8 @@ func xnetOracle(c *core.Ctx, sc *scratch, docs [][]byte, mine [][][]byte) {
 			}
 		}
 	}
-	c.Extra["xnet_oracle"] = map[string]any{"rendered_documents": len(docs), "random_markup": len(extra), "differ": diff, "differ_on_rendered": diffProbe, "first_difference": first, "examples": examples}
+	c.Extra["xnet_oracle"] = map[string]any{"rendered_documents": len(docs), "random_markup": len(extra), "differ": diff, "differ_on_rendered": diffProbe, "first_difference": first, "examples": examples,
+		"random_markup_skipped_by_deviation_class": skipped}
 	c.Oblige("contract", "specification tok + decode_refs agrees with golang.org/x/net/html's tokenizer on the rendered probe outputs and on random markup", diff == 0, first)
 }
 
@@ -73,10 +84,20 @@ func nl(s string) string {
 	return strings.ReplaceAll(strings.ReplaceAll(strings.ReplaceAll(s, "\r\n", "\n"), "\r", "\n"), "\x00", "\ufffd")
 }
 
-func canonMine(ts []Tok) string {
+// canonMine prints the specification's tokens in the form canonXnet prints x/net/html's. flipSC, when not nil,
+// lists the start tags (by their index among the start tags) to print as self-closing although the specification
+// says they are not (used only to confirm that an input differs by a documented deviation and nothing else).
+func canonMine(ts []Tok, flipSC map[int]bool) string {
 	var sb strings.Builder
 	raw := ""
+	nS := 0
 	for _, t := range ts {
+		if t.Kind == 'S' {
+			if flipSC[nS] {
+				t.SC = true
+			}
+			nS++
+		}
 		switch t.Kind {
 		case 'T':
 			if raw == "" || raw == "title" || raw == "textarea" {
@@ -130,7 +151,7 @@ func canonXnet(line string) string {
 		case "S":
 			flush()
 			fmt.Fprintf(&sb, "S(%s %v", unhex(f[1]), f[2] == "1")
-			for j := 3; j+1 < len(f); j += 2 {
+			for j := 4; j+1 < len(f); j += 2 { // f[3] is the raw text of the tag
 				fmt.Fprintf(&sb, " %s=%q", unhex(f[j]), nl(string(unhex(f[j+1]))))
 			}
 			sb.WriteString(") ")
@@ -149,10 +170,76 @@ func canonXnet(line string) string {
 	return sb.String()
 }
 
+// xnetStartTagRaws: the raw source text of each start tag of one line of the x/net driver, in order.
+func xnetStartTagRaws(line string) [][]byte {
+	var out [][]byte
+	if line == "" {
+		return nil
+	}
+	for _, it := range strings.Split(line, " ") {
+		f := strings.Split(it, ":")
+		if f[0] == "S" && len(f) > 3 {
+			out = append(out, unhex(f[3]))
+		}
+	}
+	return out
+}
+
+// Deviation classes of golang.org/x/net/html from the standard (each was inspected by hand).
+const (
+	devEmptyEndTag       = "\"</>\" anywhere: the standard emits nothing (missing-end-tag-name), x/net/html an empty comment"
+	devBangAtEnd         = "\"<!>\" at the very end of the input: the standard emits an empty (bogus) comment, x/net/html's comment data is \">\""
+	devUnquotedSlashAtGT = "start tag whose last attribute has an unquoted value ending in \"/\" directly before \">\": by the standard the solidus belongs to the value (attribute value (unquoted) state has no case for it) and the tag is not self-closing; x/net/html reports self-closing whenever the raw tag text ends in \"/>\" (token.go readStartTag: z.buf[z.raw.end-2] == '/'); all else equal"
+)
+
 // xnetKnownDeviation: input classes on which golang.org/x/net/html is documented here to deviate from the
-// standard (each was inspected by hand); they are excluded from the random-markup comparison only.
-func xnetKnownDeviation(doc []byte) bool {
-	// "</>": the standard emits nothing (missing-end-tag-name); x/net/html emits an empty comment
-	// "<!>" at the very end of the input: the standard emits an empty (bogus) comment; x/net/html's comment data is ">"
-	return bytes.Contains(doc, []byte("</>")) || bytes.HasSuffix(doc, []byte("<!>"))
+// standard; they are excluded from the random-markup comparison only, and counted per class in the evidence.
+// It returns the class, or "" when the input is in none (the difference then breaks the obligation).
+// doc: the input; spec: the specification's tokens; line: the x/net driver's line; b: canonXnet(line).
+func xnetKnownDeviation(doc []byte, spec []Tok, line, b string) string {
+	if bytes.Contains(doc, []byte("</>")) {
+		return devEmptyEndTag
+	}
+	if bytes.HasSuffix(doc, []byte("<!>")) {
+		return devBangAtEnd
+	}
+	// Unquoted value ending in "/" directly before ">". By the standard a start tag whose raw text ends in "/>" is
+	// not self-closing exactly when that "/" was consumed in the attribute value (unquoted) state: in every
+	// other state of a tag from which ">" ends the tag, "/" leads to the self-closing start tag state. The class
+	// is decided per start tag, on the specification's token and the raw text x/net/html reports for the same tag:
+	//   the specification says not self-closing, the tag has attributes, the raw value V of the last one ends in "/",
+	//   the raw tag text ends in V + ">", and V is unquoted there (the byte before it is "=" or HTML whitespace;
+	//   an unquoted value cannot start with a quote, a quoted one is followed by its quote, not by ">").
+	// The input is in the class only if printing exactly these tags as self-closing makes the two token streams
+	// EQUAL: every other token, name, attribute, value and flag is still compared.
+	raws := xnetStartTagRaws(line)
+	flip := map[int]bool{}
+	nS := 0
+	for _, t := range spec {
+		if t.Kind != 'S' {
+			continue
+		}
+		k := nS
+		nS++
+		if k >= len(raws) || t.SC || len(t.Attrs) == 0 {
+			continue
+		}
+		v := t.Attrs[len(t.Attrs)-1].Raw
+		r := raws[k]
+		if !strings.HasSuffix(v, "/") || !bytes.HasSuffix(r, []byte(v+">")) {
+			continue
+		}
+		p := len(r) - len(v) - 1 // index of the first byte of V in the raw tag text
+		if p < 1 {
+			continue
+		}
+		switch r[p-1] {
+		case '=', ' ', '\t', '\n', '\f', '\r':
+			flip[k] = true
+		}
+	}
+	if len(flip) > 0 && nS == len(raws) && canonMine(spec, flip) == b {
+		return devUnquotedSlashAtGT
+	}
+	return ""
 }
